@@ -89,7 +89,12 @@ Section Solve.
       Some (trivial_solution P t (map (fun _ => []) t)
               (if o_dense opt then Some [constant_seg (o_method opt) x0 y0] else None))
     else
-      let C := mkHC (o_t_eval opt) (o_dense opt) (o_first_step opt) x0 (pr_events P) (pr_nevents P)
+      let first_output_step :=
+        match o_first_step opt with
+        | Some h => if abs O h <=? abs O (xend - x0) then Some (abs O h) else None
+        | None => None
+        end in
+      let C := mkHC (o_t_eval opt) (o_dense opt) first_output_step x0 (pr_events P) (pr_nevents P)
                     (pr_evcfg P) (interp_fn (o_method opt)) in
       let nmax := match o_max_steps opt with Some k => k | None => USIZE_MAX end in
       let res :=
